@@ -1,29 +1,76 @@
 ---------------------------- MODULE Trace_Tensor ----------------------------
 (* C08: the library's tensor evaluation vs the reference semantics, entry by entry.
    reset/tensor : diagram g and the logged to_tensor4(g)  -> TensorOK: = Den(g) (index order ins then outs)
-   circ/ctensor : circuit c and the logged to_tensor4(c)  -> CircTensorOK: = CircSem(c)
+   circ/ctensor : circuit c and the logged to_tensor4(c)  -> CircTensorOK: = CircSem(c); an event with
+                  via = "to_graph" carries to_graph(c).to_tensor4() and is judged by the same predicate
+                  (6- and 7-qubit circuits: 4096 / 16384 entries, the size-dependent paths of tensor.rs)
    cmp          : two tensors and the answers of == and scalar_eq -> EqOK / ScalarEqOK
-   fok is the harness's 1e-9 comparison of to_tensorf with the (exact, validated) to_tensor4. *)
+   cmp2         : two FIXED exact tensors t0, t1 handed to every comparison helper as ToTensor objects, in the
+                  exact type (==, scalar_eq, compare, scalar_compare) and in the float type (compare, scalar_compare,
+                  scalar_eq on float tensors computed from the exact ones): EqOK / ScalarEqOK / CompareOK /
+                  ScalarCompareOK / FloatCompareOK / FloatScalarCompareOK / FloatScalarEqOK, all against
+                  equality / ProjEq of the logged exact tensors.  The float scalar helpers cross-multiply in floating
+                  point, so a "proportional" verdict is only demanded where float arithmetic is exact (all entries
+                  Gaussian dyadic: no sqrt2 part) or trivial (equal tensors); "not proportional" is demanded always.
+   cmpx         : compare / scalar_compare on diagrams and circuits; expected from Den / CircSem.  The float answers
+                  are NOT judged (to_tensorf computes an exact 0 such as 1 + e^{i pi} as 1.2e-16 i, and two contraction
+                  orders of equal tensors differ in the last bit): agreement is counted in stats only
+   ops          : QubitOps: start tensor ident(q) / delta(q) / hadamard() / a given tensor, then a sequence of
+                  hadamard_at / cphase_at / delta_at with caller-chosen index positions -> QubitOpsOK against the gate
+                  application operators of Circuit.tla (App1 with MHad, AppDiag) and IdTensor; fok as below
+   plug         : plug_n_qubits(t0, n, t1) -> PlugOK: = Compose(t0, r0 - n, n, t1, r1 - n).  When r1 # 2n the
+                  library function is known to be wrong (see PlugGeneral below)
+   cunsup       : circuit to_tensor on a gate kind the evaluator does not support: outside the property
+                  ("all circuits over the gates the circuit evaluator supports"), counted in stats only
+   fok is the harness's 1e-9 comparison of the float-typed result with the (exact, validated) Scalar4 result. *)
 EXTENDS TraceLib, ToGraph, FiniteSets, FiniteSetsExt
-VARIABLES l, cur, c, viol, drift, stats
-vars == <<l, cur, c, viol, drift, stats>>
-Init == l = 1 /\ cur = EmptyG /\ c = [n |-> 0, gates |-> <<>>] /\ viol = <<>> /\ drift = <<>>
-        /\ stats = [diagrams |-> 0, circuits |-> 0, comparisons |-> 0, nontrivial |-> 0]
+VARIABLES l, cur, c, cs, viol, drift, stats
+vars == <<l, cur, c, cs, viol, drift, stats>>
+\* SWITCH (OFF): plug_n_qubits broadcasts self to d1 + n axes, which is only right when `other` has exactly 2n
+\* indices; for every other shape it panics or returns a tensor of the wrong rank (genuine defect, patch in
+\* work/gD_fix_1.diff).  Set to TRUE once the fix is applied: PlugOK is then demanded for every shape.
+PlugGeneral == FALSE
+Init == l = 1 /\ cur = EmptyG /\ c = [n |-> 0, gates |-> <<>>] /\ cs = <<>> /\ viol = <<>> /\ drift = <<>>
+        /\ stats = [diagrams |-> 0, circuits |-> 0, comparisons |-> 0, nontrivial |-> 0,
+                    helper_pairs |-> 0, helper_proportional |-> 0, helper_float_unjudged |-> 0, helper_float_unjudged_agree |-> 0,
+                    helper_objects |-> 0, qubit_ops |-> 0, wide |-> 0, plugs |-> 0, plug_general |-> 0, plug_general_bad |-> 0,
+                    unsupported |-> 0, unsupported_panics |-> 0]
 Check1(ok, name) == IF ok THEN <<>> ELSE <<<<l, name>>>>
+B2N(b) == IF b THEN 1 ELSE 0
+\* ---------- expected tensors of the QubitOps API ----------
+DeltaT(n) == [b \in BIdx(n) |-> IF \A i, j \in 1..n : b[i] = b[j] THEN ROne ELSE RZero]
+HadT == [b \in BIdx(2) |-> MHad[b[1] + 1][b[2] + 1]]
+\* a tensor with n indices as a circuit state with n live outputs 0..n-1, so that Circuit!App1 / AppDiag apply
+AsState(T, n) == [T |-> T, inq |-> <<>>, outq |-> [i \in 1..n |-> i - 1]]
+ProdBits(bits) == FoldFunction(LAMBDA x, acc : x * acc, 1, bits)
+OpT(T, n, o) ==
+  CASE o.op = "had"    -> App1(AsState(T, n), o.qs[1], MHad).T
+    [] o.op = "cphase" -> AppDiag(AsState(T, n), o.qs, LAMBDA bits : o.k * ProdBits(bits)).T
+    [] o.op = "delta"  -> [b \in DOMAIN T |-> IF \A i, j \in 1..Len(o.qs) : b[o.qs[i] + 1] = b[o.qs[j] + 1] THEN T[b] ELSE RZero]
+RECURSIVE ApplyQOps(_, _, _)
+ApplyQOps(T, n, ops) == IF ops = <<>> THEN T ELSE ApplyQOps(TLCEval(OpT(T, n, Head(ops))), n, Tail(ops))
+StartT(e) == CASE e.start = "ident" -> IdTensor(e.r0 \div 2)
+               [] e.start = "delta" -> DeltaT(e.r0)
+               [] e.start = "hadamard" -> HadT
+               [] OTHER -> TFromSeq(e.t0, e.r0)
+GaussDyadic(T) == \A b \in DOMAIN T : T[b][2] = 0 /\ T[b][4] = 0
+ObjT(kind, j) == IF kind = "g" THEN Den(FromAbs(j)) ELSE CircSem(CircFromAbs(j))
+ObjRank(kind, j) == IF kind = "g" THEN Len(j.ins) + Len(j.outs) ELSE 2 * j.n
 Step(e) ==
-  CASE e.k = "reset" -> cur' = FromAbs(e.pre) /\ UNCHANGED <<c, viol, drift, stats>>
-    [] e.k = "circ"  -> c' = CircFromAbs(e.c) /\ UNCHANGED <<cur, viol, drift, stats>>
+  CASE e.k = "reset" -> cur' = FromAbs(e.pre) /\ UNCHANGED <<c, cs, viol, drift, stats>>
+    [] e.k = "circ"  -> LET cc == CircFromAbs(e.c) IN c' = cc /\ cs' = CircSem(cc) /\ UNCHANGED <<cur, viol, drift, stats>>
     [] e.k = "tensor" ->
          /\ viol' = IF e.res # "ok" THEN Append(viol, <<l, "NoPanic">>)
                     ELSE LET n == Len(Bnd(cur)) IN
                          Check1(e.rank = n /\ TFromSeq(e.t, n) = Den(cur), "TensorOK") \o Check1(e.fok, "FloatTensorOK") \o viol
          /\ stats' = [stats EXCEPT !.diagrams = @ + 1, !.nontrivial = @ + (IF Spiders(cur) # {} THEN 1 ELSE 0)]
-         /\ UNCHANGED <<cur, c, drift>>
+         /\ UNCHANGED <<cur, c, cs, drift>>
     [] e.k = "ctensor" ->
          /\ viol' = IF e.res # "ok" THEN Append(viol, <<l, "NoPanic">>)
-                    ELSE Check1(e.rank = 2 * c.n /\ TFromSeq(e.t, 2 * c.n) = CircSem(c), "CircTensorOK") \o Check1(e.fok, "FloatTensorOK") \o viol
-         /\ stats' = [stats EXCEPT !.circuits = @ + 1, !.nontrivial = @ + (IF Len(c.gates) > 0 THEN 1 ELSE 0)]
-         /\ UNCHANGED <<cur, c, drift>>
+                    ELSE Check1(e.rank = 2 * c.n /\ TFromSeq(e.t, 2 * c.n) = cs, "CircTensorOK") \o Check1(e.fok, "FloatTensorOK") \o viol
+         /\ stats' = [stats EXCEPT !.circuits = @ + 1, !.nontrivial = @ + (IF Len(c.gates) > 0 THEN 1 ELSE 0),
+                                   !.wide = @ + (IF c.n >= 6 THEN 1 ELSE 0)]
+         /\ UNCHANGED <<cur, c, cs, drift>>
     [] e.k = "cmp" ->
          LET t0 == TFromSeq(e.t0, e.r0)
              t1 == TFromSeq(e.t1, e.r1)
@@ -31,7 +78,58 @@ Step(e) ==
              proj == e.r0 = e.r1 /\ ProjEq(t0, t1)
          IN /\ viol' = Check1(e.eq = same, "EqOK") \o Check1(e.scalar_eq = proj, "ScalarEqOK") \o viol
             /\ stats' = [stats EXCEPT !.comparisons = @ + 1]
-            /\ UNCHANGED <<cur, c, drift>>
+            /\ UNCHANGED <<cur, c, cs, drift>>
+    [] e.k = "cmp2" ->
+         LET t0 == TFromSeq(e.t0, e.r0)
+             t1 == TFromSeq(e.t1, e.r1)
+             same == e.r0 = e.r1 /\ t0 = t1
+             proj == e.r0 = e.r1 /\ ProjEq(t0, t1)
+             fjudged == same \/ ~proj \/ (GaussDyadic(t0) /\ GaussDyadic(t1))
+         IN /\ viol' = IF e.res # "ok" THEN Append(viol, <<l, "NoPanic">>)
+                       ELSE Check1(e.eq4 = same, "EqOK") \o Check1(e.seq4 = proj, "ScalarEqOK")
+                            \o Check1(e.cmp4 = same, "CompareOK") \o Check1(e.scmp4 = proj, "ScalarCompareOK")
+                            \o Check1(e.cmpf = same, "FloatCompareOK")
+                            \o Check1(fjudged => e.scmpf = proj, "FloatScalarCompareOK")
+                            \o Check1(fjudged => e.seqf = proj, "FloatScalarEqOK") \o viol
+            /\ stats' = [stats EXCEPT !.comparisons = @ + 1, !.helper_pairs = @ + 1, !.nontrivial = @ + B2N(~TIsZero(t0)),
+                                      !.helper_proportional = @ + B2N(proj /\ ~same),
+                                      !.helper_float_unjudged = @ + B2N(~fjudged),
+                                      !.helper_float_unjudged_agree = @ + B2N(~fjudged /\ e.res = "ok" /\ e.scmpf = proj /\ e.seqf = proj)]
+            /\ UNCHANGED <<cur, c, cs, drift>>
+    [] e.k = "cmpx" ->
+         LET ra == ObjRank(e.ka, e.a)
+             rb == ObjRank(e.kb, e.b)
+             ta == ObjT(e.ka, e.a)
+             tb == ObjT(e.kb, e.b)
+             same == ra = rb /\ ta = tb
+             proj == ra = rb /\ ProjEq(ta, tb)
+         IN /\ viol' = IF e.res # "ok" THEN Append(viol, <<l, "NoPanic">>)
+                       ELSE Check1(e.cmp4 = same, "CompareOK") \o Check1(e.scmp4 = proj, "ScalarCompareOK") \o viol
+            /\ stats' = [stats EXCEPT !.comparisons = @ + 1, !.helper_objects = @ + 1, !.nontrivial = @ + 1,
+                                      !.helper_proportional = @ + B2N(proj /\ ~same),
+                                      !.helper_float_unjudged = @ + 1,
+                                      !.helper_float_unjudged_agree = @ + B2N(e.res = "ok" /\ e.cmpf = same /\ e.scmpf = proj)]
+            /\ UNCHANGED <<cur, c, cs, drift>>
+    [] e.k = "ops" ->
+         /\ viol' = IF e.res # "ok" THEN Append(viol, <<l, "NoPanic">>)
+                    ELSE Check1(e.rank = e.r0 /\ TFromSeq(e.t, e.r0) = ApplyQOps(StartT(e), e.r0, e.ops), "QubitOpsOK")
+                         \o Check1(e.fok, "FloatQubitOpsOK") \o viol
+         /\ stats' = [stats EXCEPT !.qubit_ops = @ + 1, !.nontrivial = @ + 1, !.wide = @ + (IF e.r0 >= 11 THEN 1 ELSE 0)]
+         /\ UNCHANGED <<cur, c, cs, drift>>
+    [] e.k = "plug" ->
+         LET general == e.r1 # 2 * e.n
+             judged == PlugGeneral \/ ~general
+             ok == /\ e.res = "ok" /\ e.rank = e.r0 + e.r1 - 2 * e.n
+                   /\ TFromSeq(e.t, e.rank) = Compose(TFromSeq(e.t0, e.r0), e.r0 - e.n, e.n, TFromSeq(e.t1, e.r1), e.r1 - e.n)
+         IN /\ viol' = IF ~judged THEN viol
+                       ELSE IF e.res # "ok" THEN Append(viol, <<l, "NoPanic">>)
+                       ELSE Check1(ok, "PlugOK") \o Check1(e.fok, "FloatPlugOK") \o viol
+            /\ stats' = [stats EXCEPT !.plugs = @ + 1, !.nontrivial = @ + 1, !.plug_general = @ + B2N(general),
+                                      !.plug_general_bad = @ + B2N(general /\ ~ok)]
+            /\ UNCHANGED <<cur, c, cs, drift>>
+    [] e.k = "cunsup" ->
+         /\ stats' = [stats EXCEPT !.unsupported = @ + 1, !.unsupported_panics = @ + B2N(e.res # "ok")]
+         /\ UNCHANGED <<cur, c, cs, viol, drift>>
 Next == \/ /\ l <= NLines /\ Step(Rec[l]) /\ l' = l + 1
-        \/ /\ l = NLines + 1 /\ Report(l, viol, drift, stats) /\ l' = l + 1 /\ UNCHANGED <<cur, c, viol, drift, stats>>
+        \/ /\ l = NLines + 1 /\ Report(l, viol, drift, stats) /\ l' = l + 1 /\ UNCHANGED <<cur, c, cs, viol, drift, stats>>
 =============================================================================
